@@ -158,7 +158,7 @@ SerdeRel(op, a, r) ==
 \* Integer projections of floating-point results (computed by the recorder in f64 from the native values).
 \* The model knows the exact rational inputs, so it knows which side of each threshold they are on.
 IsIntTup(x, n) == x.t = "Tup" /\ Len(x.c) = n
-ProjOps == {"slerp_proj", "nlerp_proj", "slerp_axis_proj", "look_proj", "arc_proj", "small_rot_proj", "norm_proj", "trig_big_proj", "tiny_inv_proj", "slab_proj", "unit_roundtrip", "normalize_native", "turn_div_exact", "full_turn_value", "euler_proj"}
+ProjOps == {"slerp_proj", "nlerp_proj", "slerp_axis_proj", "look_proj", "arc_proj", "small_rot_proj", "norm_proj", "trig_big_proj", "tiny_inv_proj", "slab_proj", "scale_proj", "cross_near_proj", "unit_roundtrip", "normalize_native", "turn_div_exact", "full_turn_value", "euler_proj"}
 ProjRel(op, k, a, r) ==
   LET wide == k = "f32" IN
   CASE op \in {"slerp_proj", "nlerp_proj"} ->
@@ -229,6 +229,20 @@ ProjRel(op, k, a, r) ==
          /\ r.c[1].c[1] = TRUE /\ r.c[2].c[1] <= 256 /\ r.c[3].c[1] <= 256
     \* C10 with far = near (1 + g): accepted (near # far), near plane to -1 and far plane to +1 (in units of eps / g)
     [] op = "slab_proj" -> /\ IsIntTup(r, 3) /\ RGt(Sc(a, 2), Zero) /\ r.c[1].c[1] = TRUE /\ r.c[2].c[1] <= 64 /\ r.c[3].c[1] <= 64
+    \* Homogeneity: F(k x) = k^d F(x) on native values, k next to 1 and up to 170 orders of magnitude away (the recorder's
+    \* table); a = <<T function, I table index, exact arguments..>>, r = <<deviation in eps (relative, per unit of
+    \* condition number), verdicts agree>>.  The functions and their degrees: inverses (-1), determinants (n), transform_point
+    \* of a scaled Matrix4 and from_homogeneous (0), quaternion inverse (-1), normalize / angle / project_on / from_arc (0),
+    \* magnitude, cross, dot (1), is_zero of vectors (a predicate: unchanged)
+    [] op = "scale_proj" ->
+         /\ IsIntTup(r, 2)
+         /\ Sc(a, 1) \in {"m4_invert", "m4_inverse_transform", "m3_invert", "m2_invert", "m4_det", "m3_det", "m4_transform_point", "from_homogeneous",
+                          "q_invert", "q_normalize", "v3_normalize", "v2_normalize", "v4_normalize", "v3_magnitude", "v3_angle", "v2_angle",
+                          "v3_project_on", "v3_cross", "v3_dot", "from_arc", "v3_is_zero", "v4_is_zero", "v2_is_zero"}
+         /\ (Sc(a, 1) = "from_homogeneous" => a[3].c[4] # Zero)
+         /\ r.c[1].c[1] <= 64 /\ r.c[2].c[1] = TRUE
+    \* cross(u, u + g w) = g cross(u, w): nearly parallel operands lose nothing beyond eps |u| |v|              (C03)
+    [] op = "cross_near_proj" -> IsIntTup(r, 2) /\ r.c[1].c[1] <= 64 /\ r.c[2].c[1] = TRUE
     [] op = "unit_roundtrip" -> r.t = "I" /\ r.c[1] <= 4       \* relative error at most 4 machine epsilons   (C13)
     [] op = "normalize_native" -> /\ IsIntTup(r, 4) /\ r.c[1].c[1] = TRUE /\ r.c[2].c[1] = TRUE
                                   /\ r.c[3].c[1] <= (IF wide THEN 20000 ELSE 10) /\ r.c[4].c[1] <= (IF wide THEN 20000 ELSE 10)
